@@ -19,6 +19,8 @@ use core::marker::PhantomData;
 #[allow(non_upper_case_globals)]
 impl SubDeviceState {
     // discriminants of the real enum (src/subdevice_state.rs; the derived wire impl is checked in C19)
+    pub const None: SubDeviceState = SubDeviceState(0x00);
+    pub const Bootstrap: SubDeviceState = SubDeviceState(0x03);
     pub const Init: SubDeviceState = SubDeviceState(0x01);
     pub const PreOp: SubDeviceState = SubDeviceState(0x02);
     pub const SafeOp: SubDeviceState = SubDeviceState(0x04);
